@@ -26,7 +26,8 @@
 //!
 //! Case line: `c20 g<kind>.<seed> <nslots> <cursor0> <total0> <img0> <tasks> <sched> <resps>`
 //!   img0   `hex/hex/hex`                       input image of each group before the concurrent phase
-//!   tasks  per task `/`-separated, per request `;`-separated: `extra,grp,op,off,len`
+//!   tasks  per task `/`-separated, per request `;`-separated: `extra,grp,op,off,len,ioff` (result slice of the
+//!          response data; for an LRW chunk of group grp the slice also goes to offset ioff of the image)
 //!   sched  `;`-separated `i<t>` task t issues its next request (frames are numbered in this order from 0),
 //!          `a<k>` segment processes frame k, `d<k>` response to frame k delivered, `c<t>` task t polled (picks up)
 //!   resps  `;`-separated, in segment order: `<hex data of first datagram>.<wkc>`
@@ -116,6 +117,9 @@ struct Case {
     loop_delay_us: u64,
     shared_ops: bool,
     sii_chunk: usize,
+    /// PDU data bytes one frame can carry (frame buffer = 28 + this). Small values make a group's
+    /// cycle span several frames (image chunks and/or state checks spill over).
+    frame_data: usize,
 }
 
 fn tag(t: usize) -> u8 {
@@ -157,9 +161,14 @@ fn gen_case(kind: u32, seed: u64) -> Case {
     if kind == 1 || kind == 2 {
         return witness_case(kind, seed);
     }
-    let ndev = rng.range(2, 8) as usize;
-    let ngroups = (rng.range(2, 3) as usize).min(ndev);
-    let ntasks = rng.range(2, 4) as usize;
+    // kind 4: small frames, big groups: a cycle spans 2..4 frames; storage mostly exactly one slot per task
+    let multi = kind == 4;
+    let ndev = if multi { rng.range(4, 8) as usize } else { rng.range(2, 8) as usize };
+    let ngroups = if multi { 2 } else { (rng.range(2, 3) as usize).min(ndev) };
+    let ntasks = if multi { *rng.pick(&[2usize, 2, 3, 4]) } else { rng.range(2, 4) as usize };
+    // a third of the small-frame cases has digital terminals only and even smaller frames
+    let digital_only = multi && rng.chance(1, 3);
+    let frame_data = if digital_only { *rng.pick(&[24usize, 32, 40]) } else if multi { *rng.pick(&[48usize, 48, 56, 64]) } else { 200 };
     // every group gets at least one device; contiguous or interleaved assignment
     let mut group_of: Vec<usize> = (0..ndev).map(|i| if i < ngroups { i } else { rng.below(ngroups as u64) as usize }).collect();
     if rng.chance(1, 2) {
@@ -168,6 +177,14 @@ fn gen_case(kind: u32, seed: u64) -> Case {
     let mut devs = Vec::new();
     for _ in 0..ndev {
         devs.push(match rng.below(8) {
+            _ if digital_only => {
+                if rng.chance(1, 2) { Kind::DigIn(*rng.pick(&[8u8, 16])) } else { Kind::DigOut(*rng.pick(&[8u8, 16])) }
+            }
+            _ if multi => match rng.below(4) {
+                0 => Kind::DigIn(16),
+                1 => Kind::DigOut(16),
+                _ => Kind::Coe(rng.range(2, 4) as usize, rng.range(2, 4) as usize, 48, *rng.pick(&[0u32, 0, 1])),
+            },
             0 => Kind::Coupler,
             1 => Kind::DigIn(*rng.pick(&[8u8, 16])),
             2 => Kind::DigOut(*rng.pick(&[8u8, 16])),
@@ -178,7 +195,7 @@ fn gen_case(kind: u32, seed: u64) -> Case {
     for g in 0..ngroups {
         if !(0..ndev).any(|d| group_of[d] == g && !matches!(devs[d], Kind::Coupler)) {
             let d = (0..ndev).find(|&d| group_of[d] == g).unwrap();
-            devs[d] = Kind::Coe(2, 2, 64, 0);
+            devs[d] = if digital_only { Kind::DigIn(16) } else { Kind::Coe(2, 2, 48, 0) };
         }
     }
     let cycler: Vec<usize> = (0..ngroups).map(|g| g % ntasks).collect();
@@ -193,8 +210,11 @@ fn gen_case(kind: u32, seed: u64) -> Case {
     } else if ntasks < ngroups {
         // a task cycles two groups
     }
-    let slots = *rng.pick(&match ntasks {
-        2 => vec![2usize, 2, 4, 8, 16],
+    let slots = *rng.pick(&match (ntasks, multi) {
+        (2, true) => vec![2usize, 2, 2, 4],
+        (4, true) => vec![4usize, 4, 4, 8],
+        (_, true) => vec![4usize, 4, 8],
+        (2, false) => vec![2usize, 2, 4, 8, 16],
         _ => vec![4usize, 4, 8, 16],
     });
     let shared_ops = rng.chance(2, 3);
@@ -207,7 +227,7 @@ fn gen_case(kind: u32, seed: u64) -> Case {
         let mut p = Vec::new();
         for _ in 0..nops {
             let op = loop {
-                match rng.below(10) {
+                match if multi && !my_groups.is_empty() && rng.chance(1, 2) { 0 } else { rng.below(10) } {
                     0..=2 if !my_groups.is_empty() => break OpSpec::Cycle { g: *rng.pick(&my_groups), fill: rng.byte() },
                     3 if !my_groups.is_empty() => {
                         // poke the inputs of one of my group's devices (the "process" moves)
@@ -275,6 +295,7 @@ fn gen_case(kind: u32, seed: u64) -> Case {
         loop_delay_us: *rng.pick(&[0u64, 20, 200]),
         shared_ops,
         sii_chunk: *rng.pick(&[4usize, 8]),
+        frame_data,
     }
 }
 
@@ -329,6 +350,7 @@ fn witness_case(kind: u32, seed: u64) -> Case {
         loop_delay_us: 0,
         shared_ops: false,
         sii_chunk: 4,
+        frame_data: 200,
     }
 }
 
@@ -380,7 +402,7 @@ fn setup(c: &Case) -> Result<Bench, String> {
         state_transition: Duration::from_millis(5000),
         wait_loop_delay: Duration::from_micros(c.loop_delay_us),
     };
-    let (mut net, md) = Net::new(seg, c.slots, 28 + 200, t, MainDeviceConfig { dc_static_sync_iterations: 10, ..Default::default() });
+    let (mut net, md) = Net::new(seg, c.slots, 28 + c.frame_data, t, MainDeviceConfig { dc_static_sync_iterations: 10, ..Default::default() });
     let group_of = c.group_of.clone();
     let r = run(&mut net, async {
         let gs = md
@@ -559,8 +581,32 @@ struct Rec {
     frames_sent: u64,
     /// (task, op number, frames sent before the op started, frames sent when it finished)
     marks: Vec<(usize, usize, u64, u64)>,
-    /// (task, op, slots not free when an operation failed)
-    fail_inflight: Vec<(usize, usize, usize)>,
+    /// (task, op, slots not free when an operation failed, number of polls of the task so far)
+    fail_inflight: Vec<(usize, usize, usize, u64)>,
+    /// polls per task (counted by the `Counted` wrapper)
+    polls: Vec<u64>,
+}
+
+/// Counts the polls of a task, so that a failure can be located in the executor trace.
+struct Counted<'a> {
+    f: Pin<Box<dyn Future<Output = Vec<String>> + 'a>>,
+    t: usize,
+    rec: Rc<RefCell<Rec>>,
+}
+
+impl Future for Counted<'_> {
+    type Output = Vec<String>;
+    fn poll(mut self: Pin<&mut Self>, cx: &mut std::task::Context<'_>) -> std::task::Poll<Self::Output> {
+        {
+            let mut r = self.rec.borrow_mut();
+            let t = self.t;
+            if r.polls.len() <= t {
+                r.polls.resize(t + 1, 0);
+            }
+            r.polls[t] += 1;
+        }
+        self.f.as_mut().poll(cx)
+    }
 }
 
 fn slots_in_use(md: Md) -> usize {
@@ -576,7 +622,8 @@ async fn task_main(c: &Case, md: Md, gs: &[Option<OpGroup>], t: usize, rec: Rc<R
         let r = exec_op(c, md, gs, t, op, k as u8).await;
         if r.starts_with('!') {
             let used = slots_in_use(md);
-            rec.borrow_mut().fail_inflight.push((t, k, used));
+            let polls = rec.borrow().polls.get(t).copied().unwrap_or(0);
+            rec.borrow_mut().fail_inflight.push((t, k, used, polls));
         }
         let end = rec.borrow().frames_sent;
         rec.borrow_mut().marks.push((t, k, start, end));
@@ -622,10 +669,13 @@ struct Concurrent {
     /// (task, op) in the order in which the segment saw the first frame of each operation
     op_order: Vec<(usize, usize)>,
     rx_errors: Vec<String>,
-    fail_inflight: Vec<(usize, usize, usize)>,
+    /// (task, op, slots not free, frames in flight = sent and response not yet delivered) at the failure
+    fail_inflight: Vec<(usize, usize, usize, usize)>,
     reordered: bool,
     max_in_flight: usize,
     frames: usize,
+    /// most frames any single process-data cycle took
+    max_cycle_frames: usize,
 }
 
 fn images(c: &Case, md: Md, gs: &[Option<OpGroup>]) -> Vec<Vec<u8>> {
@@ -689,7 +739,9 @@ fn run_concurrent(c: &Case, b: &mut Bench) -> Result<Concurrent, String> {
     let (cursor0, total0) = ethercrab::verif::counters(md.verif_pdu_loop());
     let img0 = images(c, md, &b.gs);
     let gs = &b.gs;
-    let tasks: Vec<Pin<Box<dyn Future<Output = Vec<String>> + '_>>> = (0..c.ntasks).map(|t| Box::pin(task_main(c, md, gs, t, rec.clone())) as Pin<Box<dyn Future<Output = Vec<String>> + '_>>).collect();
+    let tasks: Vec<Pin<Box<dyn Future<Output = Vec<String>> + '_>>> = (0..c.ntasks)
+        .map(|t| Box::pin(Counted { f: Box::pin(task_main(c, md, gs, t, rec.clone())), t, rec: rec.clone() }) as Pin<Box<dyn Future<Output = Vec<String>> + '_>>)
+        .collect();
     let results = match run_many(&mut b.net, tasks, |r| sched_rng.below(r.len() as u64) as usize) {
         Ok(r) => r,
         Err(Stuck::StepLimit) => return Err("stuck:steplimit".into()),
@@ -756,15 +808,21 @@ fn run_concurrent(c: &Case, b: &mut Bench) -> Result<Concurrent, String> {
     // extraction spec per frame
     let responses: Vec<(Vec<u8>, u16)> = b.net.seg.log.iter().map(|f| f.datagrams.first().map(|d| (d.data_out.clone(), d.wkc_out)).unwrap_or_default()).collect();
     let mut spec: Vec<(usize, usize)> = vec![(0, 0); nframes];
+    let mut img_off: Vec<usize> = vec![0; nframes];
     for t in 0..c.ntasks {
         for (k, op) in c.progs[t].iter().enumerate() {
             let fs: Vec<usize> = (0..nframes).filter(|&f| owner_of[f] == t && op_of[f] == k).collect();
             match op {
                 OpSpec::Cycle { g, .. } => {
+                    // the image travels in chunks; the inputs are the first `rl` bytes of the image
                     let rl = img0[*g].len();
+                    let mut off = 0usize;
                     for &f in &fs {
                         if frames[f].cmd == 12 {
-                            spec[f] = (0, rl);
+                            let take = rl.saturating_sub(off).min(frames[f].len);
+                            spec[f] = (0, take);
+                            img_off[f] = off.min(rl);
+                            off += frames[f].len;
                         }
                     }
                 }
@@ -850,7 +908,7 @@ fn run_concurrent(c: &Case, b: &mut Bench) -> Result<Concurrent, String> {
                     Some(OpSpec::Cycle { g, .. }) if frames[f].cmd == 12 => g.to_string(),
                     _ => "-".to_string(),
                 };
-                reqs.push(format!("{},{},{},{},{}", frames[f].npdu - 1, grp, op_of[f], spec[f].0, spec[f].1));
+                reqs.push(format!("{},{},{},{},{},{}", frames[f].npdu - 1, grp, op_of[f], spec[f].0, spec[f].1, img_off[f]));
             }
         }
         task_fields.push(if reqs.is_empty() { "-".to_string() } else { reqs.join(";") });
@@ -907,10 +965,36 @@ fn run_concurrent(c: &Case, b: &mut Bench) -> Result<Concurrent, String> {
         adm,
         op_order,
         rx_errors: b.net.rx_errors.clone(),
-        fail_inflight: rec.fail_inflight.clone(),
+        fail_inflight: rec
+            .fail_inflight
+            .iter()
+            .map(|&(t, k, used, polls)| {
+                // frames in flight when the failing poll of task t started
+                let (mut seen, mut sent, mut delivered) = (0u64, 0usize, 0usize);
+                for ev in &b.net.trace {
+                    match ev {
+                        ExecEvent::Poll(x) if *x == t => {
+                            seen += 1;
+                            if seen == polls {
+                                break;
+                            }
+                        }
+                        ExecEvent::Sent { .. } => sent += 1,
+                        ExecEvent::Delivered { .. } => delivered += 1,
+                        _ => {}
+                    }
+                }
+                (t, k, used, sent - delivered.min(sent))
+            })
+            .collect(),
         reordered,
         max_in_flight,
         frames: nframes,
+        max_cycle_frames: (0..c.ntasks)
+            .flat_map(|t| c.progs[t].iter().enumerate().filter(|(_, op)| matches!(op, OpSpec::Cycle { .. })).map(move |(k, _)| (t, k)))
+            .map(|(t, k)| (0..nframes).filter(|&f| owner_of[f] == t && op_of[f] == k).count())
+            .max()
+            .unwrap_or(0),
     })
 }
 
@@ -964,6 +1048,7 @@ fn one_case(c: &Case, rep: &mut Report) {
     rep.hit(&format!("groups={}", c.ngroups));
     rep.hit(&format!("slots={}", c.slots));
     rep.hit(&format!("latmode={}", c.lat_mode));
+    rep.hit(&format!("frame-data={}", c.frame_data));
     for p in &c.progs {
         for op in p {
             rep.hit(&format!("op:{}", op.kind()));
@@ -992,15 +1077,20 @@ fn one_case(c: &Case, rep: &mut Report) {
         for (t, rs) in conc.results.iter().enumerate() {
             for (k, r) in rs.iter().enumerate() {
                 if r.starts_with('!') {
-                    let used = conc.fail_inflight.iter().find(|x| x.0 == t && x.1 == k).map(|x| x.2).unwrap_or(0);
+                    // the property: no failure while fewer frames are IN FLIGHT (sent, response not yet
+                    // delivered) than the storage holds
+                    let (used, flying) = conc.fail_inflight.iter().find(|x| x.0 == t && x.1 == k).map(|x| (x.2, x.3)).unwrap_or((0, 0));
                     let key = if r == "!SwapState" {
-                        if used < c.slots { "c20/spurious-swapstate" } else { "c20/swapstate-storage-full" }
+                        if flying < c.slots { "c20/spurious-swapstate" } else { "c20/swapstate-storage-full" }
                     } else if r == "!Timeout" {
-                        "c20/spurious-timeout"
+                        if flying < c.slots { "c20/spurious-timeout" } else { "c20/timeout-storage-full" }
                     } else {
                         "c20/op-error"
                     };
-                    fails.push((key.to_string(), format!("task {t} op {k} {:?} -> {r} with {used}/{} slots in use", c.progs[t][k], c.slots)));
+                    fails.push((
+                        key.to_string(),
+                        format!("task {t} op {k} {:?} -> {r} with {flying} frame(s) in flight, {used} of {} slots not free, {} tasks", c.progs[t][k], c.slots, c.ntasks),
+                    ));
                 }
                 // tags: private reads only ever show the task's own tag
                 let private = match &c.progs[t][k] {
@@ -1061,7 +1151,7 @@ fn one_case(c: &Case, rep: &mut Report) {
         }
         unsafe { o.net.recycle() };
         // --- each task alone (only when nothing is shared)
-        if !c.shared_ops && (c.kind == 0 || c.kind == 3) {
+        if !c.shared_ops && (c.kind == 0 || c.kind == 3 || c.kind == 4) {
             rep.hit("oracle:alone");
             for t in 0..c.ntasks {
                 let mut a = setup(c).map_err(|e| ("c20/setup".to_string(), e))?;
@@ -1078,6 +1168,10 @@ fn one_case(c: &Case, rep: &mut Report) {
         rep.hit(if conc.adm { "window:ok" } else { "window:violated" });
         rep.hit(if conc.reordered { "responses:reordered" } else { "responses:in-order" });
         rep.hit(&format!("max-in-flight={}", conc.max_in_flight));
+        rep.hit(&format!("frames-per-cycle={}", conc.max_cycle_frames));
+        if conc.max_cycle_frames >= 2 && c.slots <= c.ntasks.next_power_of_two() {
+            rep.hit("multi-frame-cycle:just-enough-storage");
+        }
         rep.hit(&format!("frames<={}", (conc.frames / 50 + 1) * 50));
         if conc.max_in_flight >= c.slots {
             rep.hit("storage:full-at-some-point");
@@ -1132,8 +1226,8 @@ fn main() {
     let mut rng = Rng::new(args.seed.wrapping_mul(0x9E37_79B9).wrapping_add(20));
     for i in 0..n {
         let seed = rng.next() >> 16;
-        // every 8th case runs long programs
-        one_case(&gen_case(if i % 8 == 7 { 3 } else { 0 }, seed), &mut rep);
+        // every 8th case runs long programs, every 4th has process-data cycles of several frames
+        one_case(&gen_case(if i % 8 == 7 { 3 } else if i % 4 == 1 { 4 } else { 0 }, seed), &mut rep);
     }
     rep.write(&args.out, "c20");
 }
